@@ -21,7 +21,7 @@ CLAIMED = {
    text="Proof: in every reachable state the table lies between header and data, live regions lie in the declared data section and in the file and are pairwise disjoint (invariant, by induction over operations); a new object goes to the aligned offset at/after all data and leaves every earlier byte alone; delete keeps survivors' bytes, compaction ends the file exactly at the data end, zeroing leaves zeros in exactly the deleted regions; no operation disturbs a bystander's descriptor or bytes; nextAligned is correct for every non-negative offset and every alignment, with the overflow error exactly when the result exceeds MaxInt64." + CORR,
    note=NOTE, ref="5 (C03)"),
  "C12": dict(
-   text="Proof: with the clock and the random-ID source as explicit inputs of the model, any history whose operations each carry the deterministic option / an explicit time or meet a deterministic image yields the same results and the same final state (handle and all bytes) for all clock readings (induction over the history); creation options that fix ID and time make the created image independent of clock and random source, in any option order; the deterministic option gives nil ID and zero time, and while no time is supplied explicitly every header and object time stays zero; explicit times land in the header modification time only (creation time and ID untouched); backend independence is C14's theorem. The option-resolution model is run against the library with options in random order; every history is executed twice across a wall-clock second boundary on memory and file backends and compared byte for byte. Partial: reproducibility of the signature bytes themselves (go-crypto) is outside the model.",
+   text="Proof: with the clock and the random-ID source as explicit inputs of the model, any history whose operations each carry the deterministic option / an explicit time or meet a deterministic image yields the same results and the same final state (handle and all bytes) for all clock readings (induction over the history); creation options that fix ID and time make the created image independent of clock and random source, in any option order; the deterministic option gives nil ID and zero time, and while no time is supplied explicitly every header and object time stays zero; explicit times land in the header modification time only (creation time and ID untouched); backend independence is C14's theorem. The option-resolution model is run against the library with options in random order; every history is executed twice across a wall-clock second boundary on memory and file backends and compared byte for byte. The model of Sign (Sign.v) is run against the library for deterministic / explicit-time / default signing and the signed bytes compared, with the envelope bytes as an oracle table. Partial: reproducibility of the envelope bytes themselves (go-crypto, sigstore) is outside the model.",
    note=NOTE, ref="5 (C12)"),
  "C14": dict(
    text="Proof: sif.Buffer is transliterated line by line from buffer.go and proved bisimilar to a POSIX file model on every call inside its documented contract (any seek, non-empty write at any position incl. past the end, empty write inside the data, non-empty positioned read, shrinking truncate); every storage call the library issues on an image with >=1 descriptor slot is proved to be inside that contract (no empty write, no upward truncate); hence every operation history gives equal results and byte-identical contents on both backends (induction over histories). Capacity 0 is refuted by a computed witness (known finding F4b). The file model is validated against a real os.File, and the transliteration against the real sif.Buffer, on random call sequences (also outside the contract), and histories are run in lock-step on both backends.",
@@ -48,6 +48,9 @@ CLAIMED.update({
  "C05": dict(
    text="Proof: if default NewVerifier/Verify returns nil then every live object outside all groups is a signature, at least one group exists, and every group present has at least one current-format signature, every such signature (none skipped) opened under the supplied keys, names exactly the current members (both inclusions) and matches header, descriptors and contents; stated also as refusals (ungrouped object, unsigned group, uncovered member, missing signed object, no groups). The clause 'removing a signed object makes verification fail' is refuted by an evaluated witness for the removal of a whole group (known finding F6)." + CORR_I + " Cases: API-level edits after signing (add to a signed group / new group / no group, delete, set-metadata, delete group, delete signatures) and a descriptor-table catalogue (used flag, ID, group, link, type of every slot, duplicated/retargeted signatures, pairs), judged by a specification-side re-implementation of the property's wording.",
    note=NOTE_I, ref="5 (C05)"),
+ "C06": dict(
+   text="Proof: over the executable model of NewSigner/Sign (Sign.v, byte-exact against the library on every run): on any handle satisfying the image invariant, signing a whole group and then requesting that group yields NewVerifier's task and Verify = nil with every attached signature (earlier acceptable ones included) reporting exactly the group's objects, and signing only adds one ungrouped signature object linked to the group, every other descriptor staying in place; the appended signature is accepted for every request it covers (whole set, or any object subset under OptVerifyObject); the whole-group signer covers exactly the group in table order; adding any object outside the group afterwards keeps members, relative IDs, minimum ID, protected header fields, every live object's bytes and hence the verdict on every existing signature; the verdict is a function of the protected view only. Hypotheses (explicit, no axioms): the metadata survives JSON, the sealed envelope opens under the supplied keys to the sealed payload, a recorded fingerprint is well formed. The clause 'after further parties co-sign' is refuted for two different object-subset signatures on one group (known finding F13)." + CORR_I + " Cases: generated images (1-4 groups, 1-6 objects each, all types, empty objects, deletions before signing), PGP and DSSE (RSA/ECDSA/Ed25519, 1-3 signers), default/group/object selections, deterministic/explicit/default time; same-handle and reloaded verification, co-signing, later adds/deletes in other groups, relocated data, shifted IDs, renamed group, changed unprotected fields; refused signing requests; the signed bytes are compared with the model's.",
+   note=NOTE_I + " Reload-independence is C08's theorem (handle = reload in every reachable state); images with shifted IDs/renamed groups are covered by the view-only theorem plus the correspondence cases, not by a dedicated theorem.", ref="5 (C06)"),
  "C07": dict(
    text="Proof: a nil Verify examined every signature attached to every requested task (none skipped), each of a recognised format and of a scheme for which key material was supplied, each opened by the opener under the supplied keys; the keys/entity reported for a result are exactly what the opener returned, DSSE identities come only from the DSSE opener and PGP identities only from the clear-sign opener, and a PGP signature's descriptor names that same entity." + CORR_I + " Cases: (signing set, trusted set) pairs over 7 DSSE keys (RSA/ECDSA/Ed25519) and 3 PGP entities incl. disjoint/overlapping/superset/empty/nil, every kind of fingerprint value in the descriptor, both schemes on one group with key material for one, foreign payload types made by the trusted key, unrecognised formats; reported signers are compared with an independent re-opening of each signature with every key the harness has.",
    note=NOTE_I + " What 'valid under a key' means is go-crypto's and sigstore's answer (oracle tables), not modelled.", ref="5 (C07)"),
